@@ -47,7 +47,13 @@ SHRINK_FIELDS = ["mutations"]
 _CHILDREN: List[Child] = []
 
 NEAR_MISS = ["cahce", "k_retreival", "enabeld", "t22", "sim_treshold", "budgest", "polcy", "max_worker", "alpha_sim ", "Tiers", "xyz", ""]
-BAD_LEAVES: List[Any] = ["str", "", [], {}, None, True, -1, 0, 10**30, 1e308, -1e308, float("nan"), float("inf"), float("-inf"), [1, 2], {"x": 1}, "1", "true", 3.7]
+BAD_LEAVES: List[Any] = ["str", "", [], {}, None, True, -1, 0, 10**30, 1e308, -1e308, float("nan"), float("inf"), float("-inf"), [1, 2], {"x": 1}, "1", "true", 3.7,
+                        [[1]], [{}], [["t2:semantic"]], [None], [1.5, "x"], {"a": [1]}, [[]]]
+LIST_KNOBS = [(["t4", "cache", "namespaces"], ["t2:semantic"]), (["t2", "tiers"], ["exact_semantic", "archive"]),
+              (["t2", "lancedb"], {"partitions": {"by": ["owner", "quarter"], "shard_order": "lex"}}),
+              (["perf", "t2", "reader", "partitions"], {"enabled": True, "by": ["owner"], "layout": "none", "path": "./parts"}),
+              (["t4", "cooldowns"], {"EditGraph": 2})]
+BAD_ELEMS: List[Any] = [[], {}, ["t2:semantic"], {"k": 1}, None, 5, 1.5, float("nan"), True, "", " ", "unknown:ns"]
 
 
 def _paths(tree: Any, prefix: Tuple[Any, ...] = ()) -> List[Tuple[Any, ...]]:
@@ -69,12 +75,26 @@ def generate(seed: int, tier: str) -> Dict[str, Any]:
                              "budgets": {"t1_pops": r.choice([None, 0, 5]), "wall_ms": r.choice([20, 200])}}
     if r.chance(0.2):
         base["version"] = r.choice(["v1", "v1", "v2", 1])
+    for path, val in LIST_KNOBS:
+        if r.chance(0.3):
+            E._set_path(base, list(path), copy.deepcopy(val))
     muts = []
     for _ in range(r.choice([0, 1, 1, 2, 3, 4])):
-        kind = r.choice(["leaf", "leaf", "unknown", "nonstring", "section"])
+        kind = r.choice(["leaf", "leaf", "unknown", "nonstring", "section", "list_elem"])
         ps = _paths(base)
         if kind == "leaf" and ps:
             muts.append({"kind": "set", "path": list(r.choice(ps)), "value": r.choice(BAD_LEAVES)})
+        elif kind == "list_elem":
+            lps = [p for p in ps if isinstance(_get(base, p), list)]
+            if lps:
+                lp = r.choice(lps)
+                cur = list(_get(base, lp))
+                bad = r.choice(BAD_ELEMS)
+                if cur and r.chance(0.5):
+                    cur[r.below(len(cur))] = bad
+                else:
+                    cur.append(bad)
+                muts.append({"kind": "set", "path": list(lp), "value": cur})
         elif kind == "unknown":
             secs = [()] + [p for p in ps if isinstance(_get(base, p), dict)]
             muts.append({"kind": "set", "path": list(r.choice(secs)) + [r.choice(NEAR_MISS)], "value": r.choice([1, "x", {}, None])})
